@@ -204,7 +204,7 @@ def run_gossip(ctx, clauses, thorough, model=True):
                 raise vlib.ToolError(f"sanity run: deviation {name} was not rejected by TLC ({dev.violated})")
         behaviours = [c["ops"] for c in res.cases if c.get("ops")]
         rng = random.Random(ctx.seed)
-        limit = 60000 if thorough else 2500
+        limit = 12000 if thorough else 2500
         if len(behaviours) > limit:
             behaviours = rng.sample(behaviours, limit)
             stats["model_sampled"] = True
@@ -214,7 +214,7 @@ def run_gossip(ctx, clauses, thorough, model=True):
         stats["model_behaviours"] = len(behaviours)
         stats["model_states"] = res.distinct
     rng = random.Random(ctx.seed * 7919 + 1)
-    nrand = 3000 if thorough else 250
+    nrand = 1500 if thorough else 250
     for i in range(nrand):
         scripts.append(random_script(rng, i, rng.randint(10, 60 if thorough else 40)))
     stats["random_runs"] = nrand
